@@ -160,6 +160,7 @@ struct Explorer {
     if (on(EV_FAULT) && b.dev < maxdev) {
       for (int site : f.faults) {
         if (w.fault[site]) continue;
+        if ((site == FS_SOCKCB || site == FS_SOCKCFGCB) && !w.cfg->socket_cbs) continue; // no such callback installed
         for (int skip : f.fault_skips) {
           if (skip && !f.fault_skip_sites.empty() && std::find(f.fault_skip_sites.begin(), f.fault_skip_sites.end(), site) == f.fault_skip_sites.end()) continue;
           v.push_back(mk(EV_FAULT, site, skip));
@@ -255,6 +256,7 @@ struct Explorer {
     std::unordered_set<vf::Hash128, vf::Hash128H> seen;
     std::vector<Node> frontier, next;
     bool              cut_by_depth = false;
+    const int         depth = std::max(1, this->depth - fam->cfgs[(size_t)cfgi].depth_cut);
     // root
     {
       History h;
@@ -348,7 +350,7 @@ struct Explorer {
       frontier.swap(next);
       if (frontier.empty()) {
         // fixpoint: no unexplored state remains under the budgets
-        completed_depth = depth;
+        completed_depth = std::max(completed_depth, depth);
         if (!cut_by_depth) rep.count("cfgs_closed");
         break;
       }
@@ -396,6 +398,8 @@ struct Explorer {
     rep.bound = "family=" + fam->name + " cfgs=" + std::to_string(fam->cfgs.size()) + " depth<=" + std::to_string(depth) + " (completed " +
                 std::to_string(completed_depth) + ") deviations<=" + std::to_string(maxdev) + " requests<=" + std::to_string(fam->max_req) +
                 " dedup=" + (dedup ? "on" : "off") + (deadline_hit ? " DEADLINE-HIT" : "");
+    for (auto &c : fam->cfgs)
+      if (c.depth_cut) rep.bound += " [" + c.name + ": depth<=" + std::to_string(std::max(1, depth - c.depth_cut)) + " after its scripted start]";
   }
 };
 
